@@ -352,3 +352,40 @@ def run(tier, seed):
                                      "expected outcomes for C++ follow the documented table over the ISO C++ exception hierarchy"],
                         violations=rep.n_violations())
     return rc
+
+
+def replay(path, seed):
+    """Re-run the cases stored in a replay file (parts `c` and `cpp`) on a freshly built module."""
+    with open(path) as f:
+        rec = json.load(f)
+    d = rec["descriptor"]
+    cs = [x["case"] for x in rec["cases"] if "case" in x]
+    if d.get("part") not in ("c", "cpp") or not cs:
+        print("replay: descriptor %r is not a call case; re-run the check" % (d,))
+        return 2
+    work = core.subdir("c32replay")
+    if d["part"] == "c":
+        src, cm = L.render_module(cs)
+        spec = core.BuildSpec("c32_replay", src, directives={"legacy_implicit_noexcept": True} if cs[0]["lg"] else {})
+        exp = L.expected_obs
+    else:
+        src, cm = L.render_cpp(cs)
+        spec = core.BuildSpec("c32_replay", src, options={"cplus": True})
+        exp = L.cpp_expected_obs
+    b = core.build_many([spec], workdir=work, jobs=1)[0]
+    if not b.ok:
+        print("replay: build failed at stage %s\n%s" % (b.stage, (b.errors or "")[-2000:]))
+        return 1
+    obs = calls.run_calls(b, [["obs_fork", cm[i], True] for i in range(len(cs))], prelude=L.PRELUDE, timeout=600, tag="c32")
+    rc = 0
+    for c, o in zip(cs, obs):
+        want = exp(c)
+        try:
+            got = json.loads(o)
+        except (TypeError, ValueError):
+            got = o
+        ok = L.obs_matches(want, got)
+        print("%s case=%s want=%s got=%s" % ("ok  " if ok else "DIFF", json.dumps(c, sort_keys=True), want, got))
+        rc = rc or (0 if ok else 1)
+    print("source: %s" % os.path.join(b.dir, "c32_replay.pyx"))
+    return rc
